@@ -225,6 +225,16 @@ def run(ctx):
             check_wrapper_fixture(sub, fx, its[0], fn)
         fired = any(r.status == "fail" for r in sub.results)
         ctx.fixture(rule, fired, "zkfix::ffi::" + fn)
+    sub = Ctx(ctx.pid, ctx.tier)
+    its = fx.find(r"^zkfix::ffi::err_arm_indexes$")
+    if its:
+        check_wrapper_panics(sub, fx, its[0], "fixtures")
+    ctx.fixture("R11-6", any(r.status == "fail" for r in sub.results), "zkfix::ffi::err_arm_indexes (an unguarded index in the error arm must be seen)")
+    sub = Ctx(ctx.pid, ctx.tier)
+    its = fx.find(r"^zkfix::ffi::true_on_error$")
+    if its:
+        check_wrapper_panics(sub, fx, its[0], "fixtures")
+    ctx.fixture("R11-6-neg", bool(its) and not any(r.status == "fail" for r in sub.results), "zkfix::ffi::true_on_error has no panic site (must be silent for R11-6)")
 
 
 def check_wrapper_fixture(sub, fx, w, fn):
